@@ -31,7 +31,11 @@ R = Registry(
         "partial refresh commits only only_load_props while a full one commits all; (R4) Session.refresh expires "
         "before it loads, loads with refresh_state/only_load_props of the same request and raises when the row is "
         "gone; the unexpire load raises ObjectDeletedError when the row is gone; Session.expire_all expires every "
-        "identity-map state; Session._expire_state validates persistence first."
+        "identity-map state; Session._expire_state validates persistence first; (R5) members leave expired_attributes only on the "
+        "normal completion of the preceding statements, never in exception cleanup (a failed un-expire load leaves the attributes "
+        "expired); (R6) a row that overwrites an instance (populate_existing / refresh / partial load) applies every entry of "
+        "every populator group -- stores, discards or calls -- with the requested-key test as the only bypass, and flagged "
+        "entries are registered as expired."
     ),
     not_decided=(
         "the values read back relative to other transactions (isolation), which columns a loader strategy puts in "
@@ -401,6 +405,272 @@ def r4(ctx):
     ctx.check(ok, f"{f.key}:expires-every-state", "expire_all() does not call state._expire(state.dict, ...) for every state of the identity map", "for state in identity_map.all_states(): state._expire(state.dict, ...)", f.loc, w)
 
 
+# ------------------------------------------------------------------------------------------ R5
+#: set methods that can only remove members (meaning of the Python set API)
+SHRINKING_SET_METHODS = ("clear", "discard", "remove", "pop", "difference_update", "intersection_update", "symmetric_difference_update")
+#: functions that rebind the whole set as part of constructing / unpickling the state: not an un-expire
+REBINDS_ALLOWED = {
+    f"{IS}.__init__": "a new state has nothing expired",
+    f"{IS}.__setstate__": "restores the pickled set",
+}
+
+
+def _parts(n):
+    from ..astutil import own_exprs
+    return own_exprs(n.stmt) if n.stmt is not None and isinstance(n.stmt, ast.stmt) and n.kind in ("stmt", "test", "for", "with_enter") else []
+
+
+def _shrinks(g) -> List[int]:
+    """CFG nodes that take members out of an `<x>.expired_attributes` set."""
+    out = []
+    for n in g.nodes:
+        hit = False
+        for part in _parts(n):
+            for x in ast.walk(part):
+                if isinstance(x, ast.Call) and isinstance(x.func, ast.Attribute) and x.func.attr in SHRINKING_SET_METHODS and (dotted(x.func.value) or "").endswith(".expired_attributes"):
+                    hit = True
+        if n.kind == "stmt" and isinstance(n.stmt, ast.AugAssign) and isinstance(n.stmt.op, (ast.Sub, ast.BitAnd, ast.BitXor)) and (dotted(n.stmt.target) or "").endswith(".expired_attributes"):
+            hit = True
+        if n.kind == "stmt" and isinstance(n.stmt, ast.Assign) and any((dotted(t) or "").endswith(".expired_attributes") for t in n.stmt.targets):
+            hit = True
+        if n.kind == "stmt" and isinstance(n.stmt, ast.Delete) and any(isinstance(t, ast.Subscript) is False and (dotted(t) or "").endswith(".expired_attributes") for t in n.stmt.targets):
+            hit = True
+        if hit:
+            out.append(n.id)
+    return out
+
+
+def _simple_callee(c: ast.Call) -> Optional[str]:
+    fn = c.func
+    if isinstance(fn, ast.Name):
+        return fn.id
+    if isinstance(fn, ast.Attribute) and isinstance(fn.value, ast.Name) and fn.value.id in ("self", "cls"):
+        return fn.attr
+    return None
+
+
+@R.rule("C46-R5", floor=3, template="T-PATH/T-OWN",
+        desc="an attribute leaves <state>.expired_attributes only on the normal completion of what precedes it: in every function "
+             "of the orm package that removes members from the set (clear / discard / difference_update / -= / rebinding; a "
+             "private helper doing it is followed from its callers) no such removal is reachable from the exceptional exit of "
+             "a statement (finally / except cleanup) -- a failed load must leave the attributes expired")
+def r5(ctx):
+    cands = {}
+    for m in ctx.index.all_modules():
+        if not m.relpath.startswith("orm/") or "expired_attributes" not in m.source:
+            continue
+        direct = {}
+        funcs = list(ctx.index.all_functions(module=m))
+        for f in funcs:
+            if f.type_only or f.is_overload:
+                continue
+            seg = ast.get_source_segment(m.source, f.node) or ""
+            if "expired_attributes" in seg:
+                direct[f.key] = f
+        names = {f.name for f in direct.values() if f.name.startswith("_") and not f.name.startswith("__")}
+        cands.update(direct)
+        # callers that run such a private helper from inside a try statement: the helper is inlined into their normal form
+        for f in funcs:
+            if f.key in direct or f.type_only or f.is_overload:
+                continue
+            trys = [t for t in walk_local(f.node) if isinstance(t, ast.Try)]
+            if any(_simple_callee(c) in names for t in trys for c in calls_in(t)):
+                cands[f.key] = f
+    n_sites = 0
+    for k in sorted(cands):
+        f = nf(ctx, cands[k])
+        g = ctx.cfg(f)
+        sh = _shrinks(g)
+        if k in REBINDS_ALLOWED:
+            sh = [n for n in sh if not isinstance(g.node(n).stmt, ast.Assign)]
+        if not sh:
+            continue
+        n_sites += 1
+        exc_targets = sorted({b for a in range(len(g.nodes)) for b, lab in g.succ.get(a, ()) if lab == "exc"} - {g.raise_exit})
+        after_failure = g.reachable(exc_targets) if exc_targets else set()
+        bad = [n for n in sh if n in after_failure]
+        w = None
+        if bad:
+            srcs = [a for a in range(len(g.nodes)) if any(lab == "exc" and b != g.raise_exit for b, lab in g.succ.get(a, ()))]
+            w = g.witness(srcs, bad, (), None, lambda a, b, lab: lab == "exc")
+        ctx.check(not bad, f"{k}:expired-set-shrinks-only-on-normal-completion",
+                  f"`{unparse(g.node(bad[0]).stmt)[:70] if bad else ''}` runs although an earlier statement raised (exception cleanup: finally / except): when the load of "
+                  "the expired attributes fails (dropped connection, lock timeout, ObjectDeletedError) they are no longer in the instance dict AND no longer marked "
+                  "expired -- every later read returns None without emitting SQL instead of the value in the database; before, they stayed expired and the next "
+                  "read loaded them", f"{len(sh)} removal(s), none reachable from an exceptional edge", f.loc, w)
+    ctx.require(n_sites >= 3, f"only {n_sites} functions that remove members from expired_attributes found")
+    le = nf(ctx, ctx.func(f"{IS}._load_expired"))
+    ctx.require(_shrinks(ctx.cfg(le)), "_load_expired: the removal from expired_attributes after the load is not found")
+
+
+# ------------------------------------------------------------------------------------------ R6
+def _tri(e, env: Dict[str, bool]) -> Optional[bool]:
+    """three-valued truth of a test under the assumptions `env` ({name: bool}); None = not determined by them."""
+    if isinstance(e, ast.Name):
+        return env.get(e.id)
+    if isinstance(e, ast.Constant) and isinstance(e.value, bool):
+        return e.value
+    if isinstance(e, ast.UnaryOp) and isinstance(e.op, ast.Not):
+        v = _tri(e.operand, env)
+        return None if v is None else not v
+    if isinstance(e, ast.BoolOp):
+        vs = [_tri(v, env) for v in e.values]
+        if isinstance(e.op, ast.And):
+            return False if any(v is False for v in vs) else (True if all(v is True for v in vs) else None)
+        return True if any(v is True for v in vs) else (False if all(v is False for v in vs) else None)
+    return None
+
+
+def _assuming(g, env, also=None):
+    """edge filter: normal edges, minus the branch outcomes the assumptions refute (independent of how the test is spelt)."""
+    memo: Dict[int, Optional[bool]] = {}
+
+    def ok(a, b, lab):
+        if lab == "exc":
+            return False
+        n = g.nodes[a]
+        if n.kind == "test" and lab in ("true", "false") and hasattr(n.stmt, "test"):
+            if a not in memo:
+                memo[a] = _tri(n.stmt.test, env)
+            if memo[a] is not None and memo[a] != (lab == "true"):
+                return False
+        return also(a, b, lab) if also is not None else True
+    return ok
+
+
+def _populate_existing_param(ctx, full) -> str:
+    """The parameter of _populate_full that receives _instance's effective populate_existing flag (bound by position)."""
+    outer = ctx.func(f"{LOADING}::_instance_processor")
+    inst = _nested(outer.node, "_instance")
+    ctx.require(inst is not None, "_instance_processor has no nested _instance")
+    eff = {n for n, v, s in name_stores(inst) if isinstance(v, ast.Name) and v.id == "populate_existing"}
+    ctx.require(len(eff) == 1, "_instance: `<effective> = populate_existing` not found")
+    eff = eff.pop()
+    for c in calls_in(inst):
+        if callee_is(c, "_populate_full"):
+            for i, a in enumerate(c.args):
+                if dotted(a) == eff and i < len(full.params):
+                    return full.params[i]
+            for k in c.keywords:
+                if k.arg and dotted(k.value) == eff:
+                    return k.arg
+    ctx.require(False, "_instance: the effective populate_existing flag is not handed to _populate_full")
+
+
+@R.rule("C46-R6", floor=9, template="T-PATH/T-SIBLING",
+        desc="row population that overwrites (first row of an identity: _populate_full under populate_existing, _populate_partial "
+             "for the requested keys) applies EVERY entry of every populator group: each iteration of a `for key, x in "
+             "populators[<group>]` loop stores dict_[key], discards dict_[key] or calls the populator -- the only bypass is a "
+             "membership test of the key (narrowing to the attributes asked for), never the entry's second member or the "
+             "dict's present content; entries of a group whose second member is a flag register the key in expired_attributes "
+             "when it is set")
+def r6(ctx):
+    full = ctx.func(f"{LOADING}::_populate_full")
+    part = ctx.func(f"{LOADING}::_populate_partial")
+    pe = _populate_existing_param(ctx, full)
+    for f0, base_env, variants in ((full, {"isnew": True}, ({pe: True}, {pe: False})), (part, {"isnew": True}, ({},))):
+        ctx.require("isnew" in f0.params, f"{f0.key}: no `isnew` parameter")
+        f = nf(ctx, f0, alias="all")
+        g = ctx.cfg(f)
+        params = set(f.params)
+
+        def group_loops(env):
+            live = g.reachable([g.entry], edge_ok=_assuming(g, env))
+            out: Dict[str, List] = {}
+            for n in g.nodes:
+                if n.kind == "for" and n.id in live and isinstance(n.stmt.iter, ast.Subscript) and isinstance(n.stmt.iter.value, ast.Name) and n.stmt.iter.value.id in params \
+                        and isinstance(n.stmt.iter.slice, ast.Constant) and isinstance(n.stmt.iter.slice.value, str) \
+                        and isinstance(n.stmt.target, ast.Tuple) and len(n.stmt.target.elts) == 2 and all(isinstance(e, ast.Name) for e in n.stmt.target.elts):
+                    out.setdefault(n.stmt.iter.slice.value, []).append(n)
+            return out
+
+        def narrowing(kv, dicts, lp, apps):
+            """edges that mean nothing but `this key is not one of the attributes asked for`: an outcome of a test that is exactly
+            `<key> [not] in <collection>` (the collection not being the instance dict that is written) after which no application
+            is reachable within the iteration."""
+            skip = set()
+            # `if key in dict_: del dict_[key]` is `dict_.pop(key, None)`: where the entry is only ever discarded, "the dict does not hold the key" is no bypass
+            discard_only = bool(apps) and all(isinstance(g.node(a).stmt, ast.Delete) or any(isinstance(c.func, ast.Attribute) and c.func.attr == "pop" for c in calls_in(g.node(a).stmt)) for a in apps) \
+                and not any(isinstance(g.node(a).stmt, ast.Assign) and any(isinstance(t, ast.Subscript) for t in g.node(a).stmt.targets) for a in apps)
+            for n in g.nodes:
+                if n.kind == "test" and isinstance(getattr(n.stmt, "test", None), ast.Compare) and len(n.stmt.test.ops) == 1 and isinstance(n.stmt.test.ops[0], (ast.In, ast.NotIn)) \
+                        and dotted(n.stmt.test.left) == kv:
+                    absent = "false" if isinstance(n.stmt.test.ops[0], ast.In) else "true"
+                    in_dict = dotted(n.stmt.test.comparators[0]) in dicts
+                    for b, lab in g.succ.get(n.id, ()):
+                        if in_dict and not (discard_only and lab == absent):
+                            continue
+                        if lab in ("true", "false") and b not in apps and not (set(g.reachable([b], avoid=[lp.id], edge_ok=no_exc)) & set(apps)):
+                            skip.add((n.id, lab))
+            return lambda a, b, lab: (a, lab) not in skip
+
+        def applications(kv, xv):
+            apps, dicts = [], set()
+            for n in g.nodes:
+                hit = False
+                if n.kind == "stmt" and isinstance(n.stmt, (ast.Assign, ast.Delete)):
+                    for t in n.stmt.targets:
+                        if isinstance(t, ast.Subscript) and isinstance(t.value, ast.Name) and t.value.id in params and dotted(t.slice) == kv:
+                            hit = True
+                            dicts.add(t.value.id)
+                for part_ in _parts(n):
+                    for c in ast.walk(part_):
+                        if isinstance(c, ast.Call):
+                            if isinstance(c.func, ast.Name) and c.func.id == xv:
+                                hit = True
+                            if isinstance(c.func, ast.Attribute) and c.func.attr == "pop" and isinstance(c.func.value, ast.Name) and c.func.value.id in params and c.args and dotted(c.args[0]) == kv:
+                                hit = True
+                                dicts.add(c.func.value.id)
+                if hit:
+                    apps.append(n.id)
+            return apps, dicts
+
+        overwrite_env = dict(base_env, **variants[0])
+        groups = group_loops(base_env)
+        ctx.require(groups, f"{f0.key}: no `for key, x in populators[<group>]` loop on the first-row path")
+        live_groups = group_loops(overwrite_env)
+        for grp in sorted(groups):
+            key = f"{f0.key}:applies-every-{grp}-populator"
+            loops = live_groups.get(grp, [])
+            w, why = None, ""
+            if not loops:
+                why = f"no loop over populators[{grp!r}] runs when the row overwrites"
+            for lp in loops:
+                kv, xv = (e.id for e in lp.stmt.target.elts)
+                apps, dicts = applications(kv, xv)
+                ok = _assuming(g, overwrite_env, narrowing(kv, dicts, lp, apps))
+                w = w or g.must_pass([lp.id], [lp.id, g.exit], apps, edge_ok=ok, start_edge_ok=lambda a, b, lab: lab == "true") if apps else [f"no use of the ({kv}, {xv}) entry in the loop"]
+            if not w and loops:
+                w = g.must_pass([g.entry], [g.exit], [lp.id for lp in loops], edge_ok=_assuming(g, overwrite_env))
+                why = why or (f"the loop over populators[{grp!r}] can be skipped" if w else "")
+            ctx.check(not w and not why, key,
+                      (why + ": " if why else "") + f"when a row overwrites the instance ({', '.join(f'{a}={b}' for a, b in overwrite_env.items())}) an entry of populators[{grp!r}] can be "
+                      "passed over on account of something other than `key in <requested attributes>` (e.g. the entry's second member, or what the dict holds): its "
+                      "attribute keeps the value loaded earlier -- e.g. an already loaded deferred column stays stale after populate_existing / refresh while every "
+                      "other column is refreshed, and no SQL is emitted when it is read", f"{len(loops)} loop(s): every iteration stores / discards dict_[key] or calls the populator", f.loc, w)
+        # flag entries register the key as expired
+        flagged = []
+        for env_v in variants:
+            env = dict(base_env, **env_v)
+            for grp, loops in group_loops(env).items():
+                for lp in loops:
+                    kv, xv = (e.id for e in lp.stmt.target.elts)
+                    used_as_test = any(n.kind == "test" and any(isinstance(x, ast.Name) and x.id == xv for x in ast.walk(n.stmt.test)) and _tri(n.stmt.test, {xv: True}) is not None for n in g.nodes if hasattr(n.stmt, "test"))
+                    if used_as_test:
+                        flagged.append((env, grp, lp, kv, xv))
+        ctx.require(flagged, f"{f0.key}: no populator group whose second member is a flag")
+        w = None
+        for env, grp, lp, kv, xv in flagged:
+            adds = call_nodes(g, lambda c: isinstance(c.func, ast.Attribute) and c.func.attr == "add" and (dotted(c.func.value) or "").endswith(".expired_attributes") and c.args and dotted(c.args[0]) == kv)
+            _, dicts = applications(kv, xv)
+            ok = _assuming(g, dict(env, **{xv: True}), narrowing(kv, dicts, lp, adds))
+            w = w or (g.must_pass([lp.id], [lp.id, g.exit], adds, edge_ok=ok, start_edge_ok=lambda a, b, lab: lab == "true") if adds else [f"no <state>.expired_attributes.add({kv})"])
+        ctx.check(not w, f"{f0.key}:flagged-expire-populators-registered",
+                  "an entry of the flag group whose flag is set (a column that is not in the row and has no loader of its own) is not added to expired_attributes on every "
+                  "iteration: the attribute is absent from the dict with nothing to load it -- it reads as None instead of the database value",
+                  f"{len(flagged)} loop/assumption pair(s): expired_attributes.add(key) whenever the flag is set", f.loc, w)
+
+
 # ------------------------------------------------------------------------------------------ self-test battery
 # R1
 R.mutant("expire-keeps-dict-of-unmodified", STATE, sub("        for key in self.manager._all_key_set.intersection(dict_):\n            del dict_[key]\n", "        for key in self.manager._all_key_set.intersection(dict_):\n            if key in self.committed_state:\n                continue\n            del dict_[key]\n"), "C46-R1")
@@ -582,3 +852,47 @@ R.mutant("refresh-result-in-local-missing-row-silent", SESSION, chain(
         "        refreshed = loading._load_on_ident(\n                self,\n                stmt,\n                state.key,\n                refresh_state=state,\n"),
     sub("                is_user_refresh=True,\n            )\n            is None\n        ):\n            raise sa_exc.InvalidRequestError(\n                \"Could not refresh instance '%s'\" % instance_str(instance)\n            )\n",
         "                is_user_refresh=True,\n            )\n        if refreshed is not None and state.expired:\n            raise sa_exc.InvalidRequestError(\n                \"Could not refresh instance '%s'\" % instance_str(instance)\n            )\n")), "C46-R4")
+
+# ---- round-2 seeds (str2-s): C46_1 = populate_existing keeps a stale deferred value (pop moved under the flag); C46_2 = a failed un-expire load clears expired_attributes (finally)
+_LE_OLD = ("        self.manager.expired_attribute_loader(self, toload, passive)\n\n        # if the loader failed, or this\n        # instance state didn't have an identity,\n"
+           "        # the attributes still might be in the callables\n        # dict.  ensure they are removed.\n        self.expired_attributes.clear()\n")
+R.mutant("load-expired-clears-in-finally", STATE,
+         sub(_LE_OLD, "        try:\n            self.manager.expired_attribute_loader(self, toload, passive)\n        finally:\n            self.expired_attributes.clear()\n"), "C46-R5")
+R.mutant("load-expired-clears-in-except-and-reraises", STATE,
+         sub(_LE_OLD, "        try:\n            self.manager.expired_attribute_loader(self, toload, passive)\n        except Exception:\n            self.expired_attributes.clear()\n            raise\n        self.expired_attributes.clear()\n"), "C46-R5")
+R.mutant("load-expired-swallows-failure-then-clears", STATE,
+         sub(_LE_OLD, "        try:\n            self.manager.expired_attribute_loader(self, toload, passive)\n        except orm_exc.ObjectDeletedError:\n            pass\n        self.expired_attributes.clear()\n"), "C46-R5")
+R.mutant("load-expired-cleanup-helper-called-from-finally", STATE, chain(
+    sub(_LE_OLD, "        try:\n            self.manager.expired_attribute_loader(self, toload, passive)\n        finally:\n            self._unexpire_finished()\n"),
+    sub("    @property\n    def unmodified(self) -> Set[str]:\n", "    def _unexpire_finished(self) -> None:\n        pending = self.expired_attributes\n        pending.clear()\n\n    @property\n    def unmodified(self) -> Set[str]:\n")), "C46-R5")
+R.mutant("benign-load-expired-unrelated-finally-clear-after", STATE,
+         sub(_LE_OLD, "        loading_now = len(toload)\n        try:\n            self.manager.expired_attribute_loader(self, toload, passive)\n        finally:\n            del loading_now\n\n        self.expired_attributes.clear()\n"), None)
+R.mutant("benign-load-expired-clear-through-helper-on-normal-path", STATE, chain(
+    sub(_LE_OLD, "        self.manager.expired_attribute_loader(self, toload, passive)\n        self._unexpire_finished()\n"),
+    sub("    @property\n    def unmodified(self) -> Set[str]:\n", "    def _unexpire_finished(self) -> None:\n        pending = self.expired_attributes\n        pending.clear()\n\n    @property\n    def unmodified(self) -> Set[str]:\n")), None)
+R.mutant("benign-load-expired-clear-in-try-else", STATE,
+         sub(_LE_OLD, "        try:\n            self.manager.expired_attribute_loader(self, toload, passive)\n        except orm_exc.ObjectDeletedError:\n            raise\n        else:\n            self.expired_attributes.clear()\n"), None)
+_PF_OLD = ("        if populate_existing:\n            for key, set_callable in populators[\"expire\"]:\n                dict_.pop(key, None)\n                if set_callable:\n                    state.expired_attributes.add(key)\n"
+           "        else:\n            for key, set_callable in populators[\"expire\"]:\n                if set_callable:\n                    state.expired_attributes.add(key)\n")
+R.mutant("populate-existing-keeps-unflagged-expire-keys", LOADING,
+         sub(_PF_OLD, "        for key, set_callable in populators[\"expire\"]:\n            if set_callable:\n                if populate_existing:\n                    dict_.pop(key, None)\n                state.expired_attributes.add(key)\n"), "C46-R6")
+R.mutant("populate-existing-quick-keeps-loaded-values", LOADING,
+         sub("        state.runid = context.runid\n\n        for key, getter in populators[\"quick\"]:\n            dict_[key] = getter(row)\n", "        state.runid = context.runid\n\n        for key, getter in populators[\"quick\"]:\n            if key not in dict_:\n                dict_[key] = getter(row)\n"), "C46-R6")
+R.mutant("populate-existing-skips-expire-group", LOADING,
+         sub(_PF_OLD, "        if not populate_existing:\n            for key, set_callable in populators[\"expire\"]:\n                if set_callable:\n                    state.expired_attributes.add(key)\n"), "C46-R6")
+R.mutant("populate-partial-pop-only-flagged", LOADING,
+         sub("            if key in to_load:\n                dict_.pop(key, None)\n                if set_callable:\n                    state.expired_attributes.add(key)\n", "            if key in to_load and set_callable:\n                dict_.pop(key, None)\n                state.expired_attributes.add(key)\n"), "C46-R6")
+R.mutant("populate-full-new-populators-only-for-absent-keys", LOADING,
+         sub("        for key, populator in populators[\"new\"]:\n            populator(state, dict_, row)\n\n    elif load_path != state.load_path:", "        for key, populator in populators[\"new\"]:\n            if key not in dict_:\n                populator(state, dict_, row)\n\n    elif load_path != state.load_path:"), "C46-R6")
+R.mutant("populate-full-flagged-keys-not-registered-on-overwrite", LOADING,
+         sub(_PF_OLD, "        for key, set_callable in populators[\"expire\"]:\n            if populate_existing:\n                dict_.pop(key, None)\n            elif set_callable:\n                state.expired_attributes.add(key)\n"), "C46-R6")
+R.mutant("benign-populate-full-expire-loops-merged", LOADING,
+         sub(_PF_OLD, "        for key, set_callable in populators[\"expire\"]:\n            if populate_existing:\n                dict_.pop(key, None)\n            if set_callable:\n                state.expired_attributes.add(key)\n"), None)
+R.mutant("benign-populate-full-expire-entry-helper", LOADING, chain(
+    sub(_PF_OLD, "        for key, set_callable in populators[\"expire\"]:\n            _expire_entry(state, dict_, key, set_callable, populate_existing)\n"),
+    sub("def _populate_full(\n", "def _expire_entry(state, dict_, key, set_callable, discard):\n    if discard:\n        dict_.pop(key, None)\n    if not set_callable:\n        return\n    state.expired_attributes.add(key)\n\n\ndef _populate_full(\n")), None)
+R.mutant("benign-populate-full-inverted-and-del", LOADING,
+         sub(_PF_OLD, "        overwrite = populate_existing\n        if not overwrite:\n            for key, set_callable in populators[\"expire\"]:\n                if set_callable:\n                    state.expired_attributes.add(key)\n"
+                      "        else:\n            for attr_key, flag in populators[\"expire\"]:\n                if attr_key in dict_:\n                    del dict_[attr_key]\n                if not flag:\n                    continue\n                state.expired_attributes.add(attr_key)\n"), None)
+R.mutant("benign-populate-partial-continue-style", LOADING,
+         sub("            if key in to_load:\n                dict_.pop(key, None)\n                if set_callable:\n                    state.expired_attributes.add(key)\n", "            if key not in to_load:\n                continue\n            dict_.pop(key, None)\n            if set_callable:\n                state.expired_attributes.add(key)\n"), None)
